@@ -388,16 +388,21 @@ pub fn run(ctx: &Ctx) -> Report {
             cases2.push(Prog { class: 0, method: 1, tid: tid0, ops: vec![lk.clone()] }.to_case("build"));
         }
     }
+    // (2i) the response constructors for a request of every method
+    for method in 0..4096i64 {
+        cases2.push(Case::new("response", vec![]).args(&[method]));
+    }
     let acc2 = crate::props::sweep(cases2.into_par_iter(), judge);
     let mut acc = acc1.merge(acc2);
     acc.nontrivial = *acc.outcomes.get("built and read back").unwrap_or(&0) + acc.violations.values().map(|(_, n)| *n).sum::<u64>();
     // thread teardown: 15 build / seal / parse programs in the body of a thread and again from a
     // thread-local destructor at its exit (child process)
     crate::teardown::judge(P, "builder", &mut acc);
+    crate::teardown::callsite_sweep(P, "builder", &mut acc);
     Report {
         acc,
         exhaustive: true,
-        rule: "(thread teardown probe: 15 build / seal / parse programs also from a thread-local destructor, in a child process) all lists of pairwise distinct attributes up to the depth over a 42-entry alphabet (16 non-sealing built-in types with 2-3 values each + raw types) x 8 sealing combinations x {short-term, long-term}, each short-term program also with into_owned() before the sealing, into_owned()+clone() at the end, and the builder measured / serialised after every operation; 100 header variants x 3 lists x 8 sealings; one-attribute messages over the whole encode-side value alphabet of every built-in type, unsealed and sealed; all 4096 methods x 4 classes; one-attribute messages of every length 0..=763 (USERNAME 0..=513); every encode-side value of every type; every 16-bit type code as a raw attribute (alone; behind SOFTWARE and fully sealed); values that look like FINGERPRINT / MI / MI-SHA256 attribute headers or a STUN header, first / middle / last, under every sealing; distinct_nontrivial = programs the builder ran to completion".into(),
+        rule: "(builder_success / builder_error / bad_request / unknown_attributes for a request of every method 0..=0xFFF, read back) (thread teardown probe: 15 build / seal / parse programs also from a thread-local destructor, in a child process) all lists of pairwise distinct attributes up to the depth over a 42-entry alphabet (16 non-sealing built-in types with 2-3 values each + raw types) x 8 sealing combinations x {short-term, long-term}, each short-term program also with into_owned() before the sealing, into_owned()+clone() at the end, and the builder measured / serialised after every operation; 100 header variants x 3 lists x 8 sealings; one-attribute messages over the whole encode-side value alphabet of every built-in type, unsealed and sealed; all 4096 methods x 4 classes; one-attribute messages of every length 0..=763 (USERNAME 0..=513); every encode-side value of every type; every 16-bit type code as a raw attribute (alone; behind SOFTWARE and fully sealed); values that look like FINGERPRINT / MI / MI-SHA256 attribute headers or a STUN header, first / middle / last, under every sealing; distinct_nontrivial = programs the builder ran to completion".into(),
         bounds: json!({"attribute_lists": n_lists, "list_depth": depth, "alphabet": alpha.len(), "sealings": 8}),
         assumptions: vec!["messages larger than the 16-bit length field are outside the statement".into()],
         ..Default::default()
@@ -428,8 +433,56 @@ pub fn build_prog(p: &Prog) -> Result<Built, String> {
     Ok(Built { bytes, byte_len, results })
 }
 
+/// The response constructors: builder_success / builder_error / bad_request / unknown_attributes of a parsed
+/// request of method args[0], with an attribute added and sealed, read back: class, the request's
+/// method and transaction id, the attributes.
+fn judge_response(case: &Case, acc: &mut Acc) {
+    let method = case.args[0] as u16;
+    let tid: u128 = 0x0F0E_0D0C_0B0A_0908_0706_0000 | method as u128;
+    let req_bytes = wire::encode_msg(0, method, tid, &[(0x8022, b"rq".to_vec())]);
+    let Ok(req) = Message::from_bytes(&req_bytes) else {
+        viol!(acc, P, "parser-rejects-build", case, "a reference-built request is refused", "Ok", "Err");
+        return;
+    };
+    acc.validated += 1;
+    let sw = stun_types::attribute::Software::new("resp").unwrap();
+    let creds: stun_types::message::MessageIntegrityCredentials = stun_types::message::ShortTermCredentials::new("pw".to_owned()).into();
+    for which in 0..4u8 {
+        let (mut b, class) = match which {
+            0 => (Message::builder_success(&req), 2u8),
+            1 => (Message::builder_error(&req), 3),
+            2 => (Message::bad_request(&req), 3),
+            _ => (Message::unknown_attributes(&req, &[0x7F00.into()]), 3),
+        };
+        let sealed = which < 2 && b.add_attribute(&sw).is_ok() && b.add_message_integrity(&creds, stun_types::message::IntegrityAlgorithm::Sha1).is_ok() && b.add_fingerprint().is_ok();
+        let bytes = b.build();
+        let name = ["builder_success", "builder_error", "bad_request", "unknown_attributes"][which as usize];
+        match (wire::decode(&bytes), Message::from_bytes(&bytes)) {
+            (Ok(m), Ok(msg)) => {
+                let t: u128 = msg.transaction_id().into();
+                if (m.class, m.method, m.tid) != (class, method, tid) || (real::class_num(msg.class()), msg.method(), t) != (class, method, tid) {
+                    viol!(acc, P, "response-header-readback", case, format!("{name}(request of method {method:#05x}) serialises to a message that reads back with another class / method / transaction id"), format!("({class}, {method:#x}, {tid:#x})"), format!("wire ({}, {:#x}, {:#x}), parsed ({}, {:#x}, {t:#x})", m.class, m.method, m.tid, real::class_num(msg.class()), msg.method()));
+                    return;
+                }
+                if sealed && (msg.validate_integrity(&creds).is_err() || !m.attrs.iter().any(|a| a.typ == 0x8022 && a.value == b"resp")) {
+                    viol!(acc, P, "response-readback", case, format!("{name}(request of method {method:#05x}) + SOFTWARE + integrity + fingerprint does not read back"), "attributes present, integrity valid", "not so");
+                    return;
+                }
+            }
+            (a, b2) => {
+                viol!(acc, P, "parser-rejects-build", case, format!("{name}(request of method {method:#05x}) serialises to something that is refused"), "well-formed, accepted", format!("{:?} / {:?}", a.err().map(|e| e.why), b2.err().map(real::PErr::from)));
+                return;
+            }
+        }
+    }
+    acc.outcome("response constructors read back");
+}
+
 pub fn judge(case: &Case, acc: &mut Acc) {
     acc.evaluations += 1;
+    if case.op == "response" {
+        return judge_response(case, acc);
+    }
     let p = Prog::from_case(case);
     if p.ops.iter().any(|o| matches!(o, Op::Typed(k, v) if matches!(attrs::decode(*k, v), attrs::Verdict::Reject(_)))) {
         acc.outcome("skipped: value beyond the documented limits (not in-limit)");
